@@ -127,7 +127,7 @@ OSnapshot ==
   /\ IsEvent("Snapshot") /\ Running(E.r) /\ E.decode_ok /\ JTasksOK(E.tasks)
   /\ Rank(lasturg[E.r]) >= Threshold(sy[E.r])
   /\ snap' = IF ~snap.some \/ snap.ver < E.ver
-             THEN [some |-> TRUE, ver |-> E.ver, tasks |-> JTasks(E.tasks)] ELSE snap
+             THEN [some |-> TRUE, ver |-> E.ver, tasks |-> JTasks(E.tasks), trim |-> snap.trim] ELSE snap
   /\ faulted' = [faulted EXCEPT ![E.r] = @ \/ E.lost]
   /\ UNCHANGED <<db, chain, sy, err, pre, lasturg, gotsnap, own>>
 
@@ -155,6 +155,8 @@ ODone ==
         /\ db[E.r] = pre[E.r] /\ UNCHANGED err
   /\ sy' = [sy EXCEPT ![E.r] = Idle]
   /\ UNCHANGED <<db, chain, snap>> /\ Keep
+
+OTrim == IsEvent("Trim") /\ ServerTrim(E.n) /\ Keep
 
 OObserve == IsEvent("Observe") /\ Same(E.r) /\ UNCHANGED vars /\ Keep
 
@@ -196,7 +198,7 @@ OExpire ==
 
 ONext ==
   \/ OReset \/ OEdit \/ OStart \/ OGetSnapshot \/ OPull \/ OPush \/ OSnapshot \/ OFault
-  \/ OCommit \/ ODone \/ OObserve \/ OInstallWS \/ OGetUndo \/ OUndo \/ ORebuild \/ OExpire
+  \/ OCommit \/ ODone \/ OTrim \/ OObserve \/ OInstallWS \/ OGetUndo \/ OUndo \/ ORebuild \/ OExpire
 
 OInit ==
   /\ Init /\ l = 1
